@@ -27,7 +27,7 @@ type ConfObs struct {
 	VPanic    bool     `json:"vpanic,omitempty"`
 	ErrClass  string   `json:"err_class,omitempty"`
 	ErrText   string   `json:"err_text,omitempty"`
-	New       string   `json:"new,omitempty"`    // ok:true ok:false err:<class> panic hang
+	New       string   `json:"new,omitempty"` // ok:true ok:false err:<class> panic hang
 	NewText   string   `json:"new_text,omitempty"`
 	BaseParts []string `json:"base_parts,omitempty"`
 	Reload    string   `json:"reload,omitempty"`
